@@ -199,7 +199,8 @@ Proof.
   - cbn [agrees snd] in AL. split; [intro; subst x; exact (NF AL)|]. left. rewrite E. exact AL.
   - destruct AL as [A1 A2]. cbn [fst snd] in A1, A2.
     destruct (annot_counts uri (pre ++ r ++ post)) as [C1 C2]. rewrite A2 in C1, C2.
-    rewrite C2, C1. rewrite !has_text_app, !count_elem_app. rewrite HT1, HT2, SH1, CP, CPost. cbn [orb].
+    rewrite C2 by (rewrite !has_text_app, HT1, HT2, SH1; reflexivity).
+    rewrite C1. rewrite !count_elem_app. rewrite CP, CPost. cbn [orb].
     rewrite Nat.add_0_l, Nat.add_0_r.
     destruct (Nat.eqb (count_elem_nodes r) 1) eqn:C; cbn [negb].
     + left. exists (pre ++ r ++ post), e. split; [exact E|]. split; [exact A1|exact A2].
